@@ -62,8 +62,13 @@ CLAIMED = {
              "Spec/TlsRecords.v from a state synchronised with the decryptor (key, IV; sequence number / CBC residue / RC4 key-stream position) is decrypted to exactly the "
              "contents, in order, any lengths 0..65535, any explicit nonces/IVs, MAC values and padding lengths, MAC-then-encrypt and encrypt-then-MAC; the states stay "
              "synchronised (cipher state as a function of the whole history); C01_dispatch (decrypt takes the path of the negotiated class), C01_directions_independent. "
-             "Keys are C15's theorems, record delivery C05's, output concatenation C06's. NOT proved: that the handshake of every shape leaves session and sender synchronised "
-             "(hello parsing, CCS/Finished bookkeeping, TLS 1.3 key switch at Finished, inner-type and padding handling): decided by the independent reference sender "
+             "At the level of the session, TLS 1.3: C01_tls13_session (any interleaving of application records of both directions handed to Session.handle_tls_record is "
+             "exported exactly, in order, with its direction; inner type and padding handling included), C01_tls13_flight (a direction's encrypted handshake flight cut into "
+             "records at ANY bytes -- grouped or fragmented -- switches that direction to its application keys exactly at its Finished, other direction untouched), "
+             "C01_tls13_connection (server flight, client flight, then any application history: exactly the application contents are exported), C01_fresh_decryptor (the "
+             "premises are what Decryptor.__init__ yields from a complete key set). "
+             "Keys are C15's theorems, record delivery C05's, output concatenation C06's. NOT proved: hello parsing and key lookup, the CCS/Finished bookkeeping of "
+             "TLS <= 1.2, TLS 1.3 server data before the client Finished and post-handshake messages: decided by the independent reference sender "
              "(all versions x all ~200 table suites x handshake shapes x histories x segmentations) on the implementation and by byte-exact correspondence of the session model.",
         note="Trusted: Coq kernel; CryptoLaws as a hypothesis on the Crypto record (named in the statements); Spec/TlsRecords.v as a transcription of the record layer RFCs; "
              "tools/ref/tls_ref.py as the oracle of the search; no compression, renegotiation, KeyUpdate, 0-RTT, HRR (as in the property).",
